@@ -61,13 +61,17 @@ class Case:
             " ".join(str(d) for d in self.dims), len(self.nums),
             " ".join("%x" % num.bits(self.ty, x) for x in self.nums))
 
+    def model_nums(self):
+        return self.meta.get("model_nums", self.nums)
+
     def model_key(self):
-        return (self.mop, self.ty, tuple(self.mdims), tuple(num.bits(self.ty, x) for x in self.nums))
+        return (self.mop, self.ty, tuple(self.mdims), tuple(num.bits(self.ty, x) for x in self.model_nums()))
 
     def model_line(self):
+        mn = self.model_nums()
         return "%s %s %d %s %d %s" % (
             self.mop, self.ty, len(self.mdims), " ".join(str(d) for d in self.mdims),
-            len(self.nums), " ".join(num.tok(x) for x in self.nums))
+            len(mn), " ".join(num.tok(x) for x in mn))
 
     def describe(self):
         return {"op": self.op, "type": self.ty, "family": self.fam, "style": self.style,
